@@ -240,6 +240,7 @@ def _worker(cfg, inp, out, wd):
     for ft, (mod, fn) in reg.items():
         setattr(importlib.import_module(mod), fn, mk(fn))
     os.chdir(wd)
+    nfile = 0
     for e in events:
         path = e["path"]
         if "://" in path or path.startswith("/") or "\\" in path or "\x00" in path or len(path) > 200 \
@@ -253,8 +254,18 @@ def _worker(cfg, inp, out, wd):
         try:
             fp = Path(wd) / path
             fp.parent.mkdir(parents=True, exist_ok=True)
-            if not fp.exists():
-                fp.write_bytes(b"x")
+            if not fp.exists() and not fp.is_symlink():
+                nfile += 1
+                if nfile % 4 == 0:
+                    # the path is a symbolic link to a blob with another (or no) extension, as in content-addressed
+                    # stores: routing must follow the path that was given, not the link target
+                    store = Path(wd) / ".store"
+                    store.mkdir(exist_ok=True)
+                    target = store / (f"blob{nfile}" + ("", ".html", ".bin", ".pdf")[(nfile // 4) % 4])
+                    target.write_bytes(b"x")
+                    fp.symlink_to(target)
+                else:
+                    fp.write_bytes(b"x")
         except OSError:
             e["rf"] = "n/a"
             continue
